@@ -640,6 +640,8 @@ fn shapes() -> Vec<(&'static str, u64, Option<Vec<u8>>)> {
         ("mp3", 1000, Some(b"bytes=2-5,0-2,996-".to_vec())),
         ("mp2", 1000, Some(b"bytes=0-2,997-".to_vec())),
         ("mp4", 2000, Some(b"bytes=1-2,4-6,8-9,1998-".to_vec())),
+        // the same range twice in a row, then another one
+        ("mpdup", 1000, Some(b"bytes=300-303,300-303,20-22".to_vec())),
     ]
 }
 
@@ -1179,6 +1181,20 @@ pub fn c02(em: &mut Emit, thorough: bool, seed: u64) {
     // the entity the crate ships: files served with Range headers
     crate::suites_fs::serve_over_files(em);
     tokio_task_cases(em);
+    // every shape the body suites are built on must be servable at all (the case generators read
+    // the ranges off an honest reference run; a shape that cannot be served would silently
+    // contribute no cases)
+    for (name, len, range) in shapes() {
+        let mut q = HReq::get();
+        q.range = range.clone();
+        let o = observe_serve(&q, &ent(len));
+        let ok = !o.panicked && !matches!(o.plan, Plan::Unknown(_)) && (range.is_none() || !ranges_of(&o).is_empty());
+        em.pred_only(
+            &format!("shape {}: an honest entity of {} bytes, Range {:?}, served and drained", name, len, range.as_ref().map(|r| String::from_utf8_lossy(r).to_string())),
+            &pred(ok, || format!("could not be served and drained honestly: {}", o.show())),
+            "shape",
+        );
+    }
     let mut rng = Rng::new(seed ^ 0xC02);
     // corpus: F2
     {
@@ -1557,8 +1573,110 @@ fn panicking_stream_cases(em: &mut Emit) {
     }
 }
 
+/// An entity whose range stream delivers `good` honest bytes, then `empties` EMPTY chunks, then
+/// ends early or fails (a producer that idles for a long time before it gives up).
+struct FloodEntity {
+    good: u64,
+    empties: u64,
+    fail: bool,
+}
+struct FloodStream {
+    pos: u64,
+    stop: u64,
+    empties: u64,
+    fail: bool,
+    done: bool,
+}
+impl futures_core::Stream for FloodStream {
+    type Item = Result<Bytes, BoxError>;
+    fn poll_next(mut self: std::pin::Pin<&mut Self>, _cx: &mut std::task::Context<'_>) -> std::task::Poll<Option<Self::Item>> {
+        if self.pos < self.stop {
+            let n = 5u64.min(self.stop - self.pos);
+            let d = content(self.pos..self.pos + n);
+            self.pos += n;
+            return std::task::Poll::Ready(Some(Ok(Bytes::from(d))));
+        }
+        if self.empties > 0 {
+            self.empties -= 1;
+            return std::task::Poll::Ready(Some(Ok(Bytes::new())));
+        }
+        if self.fail && !self.done {
+            self.done = true;
+            return std::task::Poll::Ready(Some(Err(Box::new(EntityFailure))));
+        }
+        std::task::Poll::Ready(None)
+    }
+}
+impl http_serve::Entity for FloodEntity {
+    type Error = BoxError;
+    type Data = Bytes;
+    fn len(&self) -> u64 {
+        1000
+    }
+    fn get_range(&self, r: std::ops::Range<u64>) -> std::pin::Pin<Box<dyn futures_core::Stream<Item = Result<Bytes, BoxError>> + Send + Sync>> {
+        Box::pin(FloodStream { pos: r.start, stop: (r.start + self.good).min(r.end.saturating_sub(1)), empties: self.empties, fail: self.fail, done: false })
+    }
+    fn add_headers(&self, _: &mut http::HeaderMap) {}
+    fn etag(&self) -> Option<http::HeaderValue> {
+        None
+    }
+    fn last_modified(&self) -> Option<std::time::SystemTime> {
+        None
+    }
+}
+
+/// C07 with a very long run of empty chunks before the fault (counts far beyond what the
+/// scripted cases enumerate): however long a stream idles, an early end is still an error.
+fn empty_flood_cases(em: &mut Emit) {
+    use http_body::Body as _;
+    for range in [None, Some("bytes=10-509"), Some("bytes=0-9, 20-49")] {
+        for empties in [1000u64, 65_535, 65_536, 70_000, 200_000] {
+            for fail in [false, true] {
+                let mut b = http::Request::get("/");
+                if let Some(r) = range {
+                    b = b.header("range", r);
+                }
+                let req = b.body(()).unwrap();
+                let resp = http_serve::serve(FloodEntity { good: 7, empties, fail }, &req);
+                let announced: Option<u64> = resp.headers().get("content-length").and_then(|v| v.to_str().ok()).and_then(|v| v.parse().ok());
+                let mut body = Box::pin(resp.into_body());
+                let waker = noop_waker();
+                let mut cx = std::task::Context::from_waker(&waker);
+                let mut delivered = 0u64;
+                let mut outcome = "no terminal event";
+                let r = std::panic::catch_unwind(std::panic::AssertUnwindSafe(|| {
+                    for _ in 0..(empties + 1000) {
+                        match body.as_mut().poll_frame(&mut cx) {
+                            std::task::Poll::Ready(Some(Ok(f))) => delivered += f.into_data().map(|d| d.len() as u64).unwrap_or(0),
+                            std::task::Poll::Ready(Some(Err(_))) => {
+                                outcome = "error";
+                                break;
+                            }
+                            std::task::Poll::Ready(None) => {
+                                outcome = "clean end";
+                                break;
+                            }
+                            std::task::Poll::Pending => {}
+                        }
+                    }
+                }));
+                if r.is_err() {
+                    outcome = "panic";
+                    std::mem::forget(body);
+                }
+                em.pred_only(
+                    &format!("entity stream: 7 good bytes, {} empty chunks, then {} (Range {:?})", empties, if fail { "an error" } else { "an early end" }, range),
+                    &pred(outcome == "error", || format!("{} after {} of the {:?} bytes announced", outcome, delivered, announced)),
+                    "empty-flood",
+                );
+            }
+        }
+    }
+}
+
 pub fn c07(em: &mut Emit, thorough: bool, seed: u64) {
     panicking_stream_cases(em);
+    empty_flood_cases(em);
     let mut rng = Rng::new(seed ^ 0xC07);
     for c in fault_cases(&mut rng, thorough) {
         run_case(em, &c, &pred_c07);
